@@ -409,6 +409,8 @@ def run_cli(argv, plan=None, stdout=None, stderr=None, swap=True):
             status = 1
             tb = True
             exc = '%s: %s' % (type(ex).__name__, ex)
+            if isinstance(ex, ValueError):   # incl. UnicodeError; reported uniformly so callers can classify
+                exc = 'ValueError: ' + exc
             try:
                 err.parts.append(''.join(traceback.format_exception_only(type(ex), ex)))
             except Exception:
